@@ -75,17 +75,17 @@ inductive BResult where
   /-- `(None, None)` -/
   | none
   | path (value : Rat) (p : List Node)
-  /-- `B[None]` — `KeyError: None` (no node with in-edges and without out-edges) -/
-  | keyError
   /-- model-internal: fuel exhausted / infinite bottleneck; unreachable under the contract -/
   | stuck
   deriving Repr, DecidableEq
 
-/-- `max_bottleneck_path(G, flow_attr)` -/
+/-- `max_bottleneck_path(G, flow_attr)`;
+`if maxBottleneckSink is None or B[maxBottleneckSink] == 0: return None, None` — `maxBottleneckSink`
+stays `None` when no node has an in-edge and no out-edge (e.g. in a graph without edges) -/
 def maxBottleneckPath (g : Graph) (f : Edge → Rat) (topo : List Node) : BResult :=
   let st := bTable g f topo
   match st.best with
-  | none => .keyError
+  | none => .none
   | some m =>
     match st.B m with
     | none => .stuck
@@ -105,7 +105,6 @@ structure Peeled where
 
 inductive PeelResult where
   | done (r : Peeled)
-  | keyError
   /-- model-internal (fuel) -/
   | stuck
 
@@ -116,7 +115,6 @@ def peelLoop (g : Graph) (topo : List Node) : Nat → (Edge → Rat) → List (L
     match maxBottleneckPath g f topo with
     | .none => .done { paths := acc, residual := f }
     | .path b p => peelLoop g topo n (subtractPath f p b) (acc ++ [(p, b)])
-    | .keyError => .keyError
     | .stuck => .stuck
 
 /-- `decompose_using_max_bottleneck(flow_attr)` -/
